@@ -43,6 +43,10 @@ pub const OPS: &[OpSpec] = &[
     OpSpec { name: "sym", nslots: 0, kids: &[], payload: true },
     // ternary node of LS
     OpSpec { name: "t", nslots: 0, kids: &[0, 0, 0], payload: false },
+    // a child before a binder (the binder is not the first slot of the node's shape)
+    OpSpec { name: "h", nslots: 0, kids: &[0, 1], payload: false },
+    // LA: (sumr r [x] b) = r * sum_x b
+    OpSpec { name: "sumr", nslots: 0, kids: &[0, 1], payload: false },
 ];
 
 pub fn op_index(name: &str) -> Option<u8> {
